@@ -299,6 +299,9 @@ func moveOutDir(w *bytes.Buffer, value json.RawMessage,
 		for k := range valueMap {
 			if err := syntax.IsLegalUnixFilename(k); err != nil {
 				util.PrintError(err, "cannot create out directory %q", k)
+				errs = append(errs, fmt.Errorf(
+					"cannot create out directory %q for %s: %v",
+					k, member.Id, err))
 			} else {
 				keys = append(keys, k)
 			}
